@@ -172,6 +172,11 @@ def gen_value(schema, att, rng, location="body", depth=0):
     """A valid design-level JSON value for the attribute, or None when none can be built."""
     a = schema.resolve(att)
     t = a.get("type", {})
+    if t.get("prim") == "Any":
+        # the type Any: in a body any JSON value (numbers must stay plain float64 numbers); elsewhere a string
+        if location != "body":
+            return rng.choice(["any text", "x-1"])
+        return rng.choice([1.5, -3.0, "any text", True, [1.5, "x", False], {"k": 2.25, "l": ["y", 7.0]}, 1048576.0])
     if t.get("prim"):
         return valid_prim(t["prim"], schema.eff_val(att), rng, location)
     if depth > 7:
